@@ -40,6 +40,6 @@ var Hooks = map[string]any{
 	"guard":            "verif",
 	"enable":           "go build tag: engines are built with `go1.26.8 test -c -tags verif` against /repo (replace directive)",
 	"baseline_off_cmd": "cd /repo && GOFLAGS=-mod=mod GOPROXY=off GOSUMDB=off go test -vet=off -count=1 -timeout 25m ./...",
-	"source_commits":   []string{"42fbbfe", "4e19f92", "0a22d76", "5587c8f", "d938b0a", "1855161"},
+	"source_commits":   []string{"42fbbfe", "4e19f92", "0a22d76", "5587c8f", "d938b0a", "1855161", "bd2bd85"},
 	"add_only":         true,
 }
